@@ -46,7 +46,8 @@ def cuts(r, n):
 def gen_prog(r, big=False):
     size = r.choice([4096 * r.randint(1, 12), 4096 * r.randint(1, 12) + r.randint(1, 4095), r.randint(1, 4095), 100000])
     refill = 4096 << r.randint(0, 3)
-    lines = ["cache %d %d %s" % (size, refill, os.path.join(C.SCRATCH, "c17"))]
+    # media on tmpfs (no fiemap: the store keeps / rebuilds its own range map) or under the scratch directory (fiemap where the fs has it)
+    lines = ["cache %d %d %s" % (size, refill, r.choice([os.path.join(C.SCRATCH, "c17"), "/dev/shm/photon-verif-c17"]))]
     for ti in range(1, r.randint(2, 5 if big else 4) + 1):
         ops = []
         for _ in range(r.randint(1, 7 if big else 5)):
@@ -55,8 +56,10 @@ def gen_prog(r, big=False):
                 off = r.choice([r.randint(0, size + 50), (r.randint(0, size) // 4096) * 4096, max(0, size - r.randint(0, 5000))])
                 ln = r.choice([r.randint(1, 20000), 4096, refill, r.randint(1, 100), size])
                 ops.append("read %d %d %s" % (off, ln, cuts(r, ln)))
-            elif c < 0.8:
+            elif c < 0.78:
                 ops.append("evict")
+            elif c < 0.83:
+                ops.append("reopen")
             elif c < 0.9:
                 ops.append("yield")
             else:
@@ -158,6 +161,8 @@ def run(rep, tier, seed, replay=None):
         if unlisted and not reported:
             rep.violation("counterexample", dict(harness="hsim_cache", program=p, expected=unlisted[0], trace=res.trace[-40:]))
             reported = True
+    import shutil
+    shutil.rmtree("/dev/shm/photon-verif-c17", ignore_errors=True)
     rep.count(nev)
     rep.cov["programs"] = len(progs)
     rep.cov["traces_validated_against_impl"] = okc
